@@ -165,3 +165,315 @@ Proof.
   destruct (shorten_ok _ _ _ R1 E) as [S1 S2].
   apply acc_eqb_name in H. apply acc_name_inj in H; [|assumption|assumption]. subst b'. congruence.
 Qed.
+
+(* ------------------------------------------------------------ Part C: the cells of a mapped row *)
+
+(* what a dated posting contributes to row b under commodity c *)
+Definition mval (cfg : balance_cfg) (b : account) (c : commodity) (dp : Z * posting) : Q :=
+  if lands_on cfg b (p_acc (snd dp)) && cfg_where cfg (p_acc (snd dp)) (p_com (snd dp)) && str_eqb (p_com (snd dp)) c
+  then dvalue (p_val (snd dp)) else 0.
+
+Lemma q_contrib_mapped cfg part V b c col d p :
+  bc_valuation cfg = Some V ->
+  q_contrib (balance_query cfg part) b (Some col, Some c) (d, p)
+  == if in_col (periods part) col d then mval cfg b c (d, p) else 0.
+Proof.
+  intros Hv. rewrite q_contrib_ind. unfold q_ind, balance_query. cbn [q_where q_account q_date q_valued].
+  rewrite Hv. unfold mval, lands_on, in_col. cbn [snd].
+  assert (Hwe : (match bc_accounts cfg with [] => true | rs => rxs_match rs (acc_name (p_acc p)) end
+                && match bc_commodities cfg with [] => true | rs => rxs_match rs (p_com p) end)
+                = cfg_where cfg (p_acc p) (p_com p)) by reflexivity.
+  rewrite Hwe. unfold Date.align. rewrite align_list_column_for.
+  destruct (cfg_where cfg (p_acc p) (p_com p)).
+  - destruct (shorten (bc_mapping cfg) (remap (bc_remap cfg) (p_acc p))) as [b'| |].
+    + destruct (acc_eqb b' b); cbn [andb].
+      * destruct (column_for (periods part) d) as [e|]; unfold rkey_eqb; cbn [fst snd oz_eqb ocom_eqb].
+        -- destruct (e =? col)%Z, (str_eqb (p_com p) c); cbn [andb]; ring.
+        -- cbn [andb]. ring.
+      * destruct (column_for (periods part) d) as [e|]; [destruct (e =? col)%Z|]; ring.
+    + cbn [andb]. destruct (column_for (periods part) d) as [e|]; [destruct (e =? col)%Z|]; ring.
+    + cbn [andb]. destruct (column_for (periods part) d) as [e|]; [destruct (e =? col)%Z|]; ring.
+  - rewrite andb_false_r. cbn [andb]. destruct (column_for (periods part) d) as [e|]; [destruct (e =? col)%Z|]; ring.
+Qed.
+
+(* the cell of a row b of asset/liability type, whatever --mapping and --remap do: the values
+   Valuate posted inside the window on the postings that land on b and pass the filters *)
+Theorem mapped_report_cells cfg ds r part V :
+  bc_valuation cfg = Some V ->
+  balance_report cfg ds = COk (r, part) ->
+  exists dl dsP dsV,
+    parse_directives ds = MOk dl /\
+    new_partition (clip (mkPeriod (bc_from cfg) (bc_to cfg)) (journal_period dl)) (bc_interval cfg) (bc_last cfg) = POk part /\
+    valued_run cfg V dl part dsP dsV /\
+    (postings_syntactic dl ->
+     Forall acc_ok_p (vposts dsV) /\
+     Forall (acc_from (fun a => exists d p, In (d, p) (flat_postings dl) /\ p_acc p = a)) (vposts dsV) /\
+     forall b c col, account_ok b = true -> is_AL b = true ->
+       rcell b (Some col, Some c) r ==
+       lsum (fun dp => if in_span (span part) (fst dp) && in_col (periods part) col (fst dp) then mval cfg b c dp else 0) (dposts dsV)).
+Proof.
+  intros Hv H. unfold balance_report in H. rewrite Hv in H.
+  destruct (valid_commodity V); [|discriminate]. cbn [cbind] in H.
+  unfold load in H. destruct (parse_directives ds) as [dl| |] eqn:Ep; try discriminate. cbn [cbind of_mresult] in H.
+  unfold cfg_partition in H. rewrite builder_period_spec in H.
+  destruct (new_partition (clip (mkPeriod (bc_from cfg) (bc_to cfg)) (journal_period dl)) (bc_interval cfg) (bc_last cfg)) as [part0| |] eqn:Epart; try discriminate.
+  cbn [cbind] in H. unfold run_stage in H.
+  change (b_days (if bc_close cfg then builder_touch (builder_of dl) (start_dates part0) else builder_of dl))
+    with (built_days (bc_close cfg) dl part0) in H.
+  set (days0 := built_days (bc_close cfg) dl part0) in *.
+  destruct (process_days (check_proc_current (bc_lenient cfg)) check_init days0) as [[s1 d1]| |] eqn:E1; try discriminate.
+  cbn [cbind of_presult fst snd] in H.
+  pose proof (check_current_stage_id _ _ _ _ _ E1) as ->.
+  destruct (process_days (compute_prices_proc V) (mkCp [] None) days0) as [[sP dsP]| |] eqn:E2; try discriminate.
+  cbn [cbind of_presult fst snd] in H.
+  destruct (process_days (valuate_proc V) (mkVal None None []) dsP) as [[sV dsV]| |] eqn:E3; try discriminate.
+  cbn [cbind of_presult fst snd] in H.
+  destruct (process_days (filter_proc (span part0)) tt dsV) as [[s4 d4]| |] eqn:E4; try discriminate.
+  cbn [cbind of_presult fst snd] in H.
+  pose proof (filter_stage_spec _ _ _ _ _ E4) as ->.
+  change (map (fun d => if period_contains (span part0) (d_date d) then d else set_txns d []) dsV)
+    with (map (filt (span part0)) dsV) in H.
+  assert (Hfin : exists dsC r6 d6,
+            (if bc_close cfg
+             then exists s5, process_days (close_proc (start_dates part0)) (mkClose [] []) (map (filt (span part0)) dsV) = ROk (s5, dsC)
+             else dsC = map (filt (span part0)) dsV) /\
+            process_days (query_proc (balance_query cfg part0) report_insert) new_report dsC = ROk (r6, d6) /\
+            r6 = r /\ part0 = part).
+  { destruct (bc_close cfg).
+    - destruct (process_days (close_proc (start_dates part0)) (mkClose [] []) (map (filt (span part0)) dsV)) as [[s5 d5]| |] eqn:E5; try discriminate.
+      cbn [cbind of_presult fst snd] in H.
+      destruct (process_days (query_proc (balance_query cfg part0) report_insert) new_report d5) as [[r6 d6]| |] eqn:E6; try discriminate.
+      cbn [cbind of_presult fst snd] in H. injection H as <- <-. exists d5, r6, d6. split; [exists s5; reflexivity|]. auto.
+    - cbn [cbind] in H.
+      destruct (process_days (query_proc (balance_query cfg part0) report_insert) new_report (map (filt (span part0)) dsV)) as [[r6 d6]| |] eqn:E6; try discriminate.
+      cbn [cbind of_presult fst snd] in H. injection H as <- <-. exists (map (filt (span part0)) dsV), r6, d6. auto. }
+  clear H. destruct Hfin as (dsC & r6 & d6 & Hclose & E6 & -> & ->).
+  exists dl, dsP, dsV. split; [reflexivity|]. split; [exact Epart|].
+  split; [exists sP, sV; split; assumption|].
+  intros Hsyn.
+  (* facts about the valued days *)
+  pose proof (built_days_in_ok' (bc_close cfg) ds dl part Ep Hsyn) as Hin0. fold days0 in Hin0.
+  destruct (cp_days_shape _ _ _ _ _ E2) as (Hdates2 & Hposts2 & Hdated2).
+  assert (HinP : Forall posting_in_ok (vposts dsP)).
+  { rewrite <- snd_dposts, Hposts2, snd_dposts. exact Hin0. }
+  assert (Hgood0 : entries_ok (v_qty val_init)) by (split; [constructor|intros x []]).
+  pose proof (val_days_acc_ok V dsP val_init sV dsV HinP Hgood0 E3) as HokV.
+  destruct (val_days_dated V dsP _ _ _ E3 (Hdated2 (built_days_dated _ _ _))) as [HdatedV _].
+  assert (HokF : posts_ok (dposts (map (filt (span part)) dsV))).
+  { intros dp Hdp. apply (acc_ok_posts_ok dsV HokV). eapply filt_in. exact Hdp. }
+  split; [exact HokV|]. split.
+  { apply (val_days_from _ V dsP val_init sV dsV E3); [|intros x []].
+    rewrite <- snd_dposts, Hposts2. rewrite Forall_forall. intros p Hp. apply in_map_iff in Hp.
+    destruct Hp as ([d p0] & <- & Hdp). cbn [snd]. left. exists d, p0. split; [|reflexivity].
+    eapply Permutation_in; [apply built_days_perm|exact Hdp]. }
+  intros b c col Hb HAL.
+  destruct (query_days (balance_query cfg part) b (Some col, Some c) _ _ _ _ wf_new_report E6) as (_ & _ & Hcell).
+  rewrite Hcell, rcell_new, Qplus_0_l. clear Hcell E6.
+  (* the close stage does not touch rows of asset/liability type *)
+  assert (Hq0 : forall dp, account_ok (p_acc (snd dp)) = true -> is_AL (p_acc (snd dp)) = false ->
+                 q_contrib (balance_query cfg part) b (Some col, Some c) dp == 0).
+  { intros [d p] Hp Hn. cbn [snd] in Hp, Hn. rewrite (q_contrib_mapped cfg part V b c col d p Hv).
+    unfold mval. cbn [snd]. destruct (lands_on cfg b (p_acc p)) eqn:El.
+    - pose proof (lands_class cfg b (p_acc p) Hp Hb El). congruence.
+    - cbn [andb]. destruct (in_col (periods part) col d); reflexivity. }
+  assert (Hq : q_total (balance_query cfg part) b (Some col, Some c) (dposts dsC)
+               == q_total (balance_query cfg part) b (Some col, Some c) (dposts (map (filt (span part)) dsV))).
+  { destruct (bc_close cfg).
+    - destruct Hclose as (s5 & E5). rewrite !q_total_qsum.
+      apply (close_days_AL (start_dates part) _ Hq0 _ (mkClose [] []) _ _ map_ok_nil HokF E5).
+    - subst dsC. reflexivity. }
+  rewrite Hq, q_total_qsum, (filt_sum _ _ _ HdatedV).
+  apply LedgerProofs.qsum_ext. intros [d p] Hdp. cbn [fst].
+  destruct (in_span (span part) d); cbn [andb]; [|reflexivity].
+  apply (q_contrib_mapped cfg part V b c col d p Hv).
+Qed.
+
+(* ------------------------------------------------------------ Part D: cumulated cells = window sum *)
+
+Lemma cum_window_generic (f : Z * posting -> Q) b c part col r (L : list (Z * posting)) P iv n :
+  new_partition P iv n = POk part -> (p_start (span part) <= p_end (span part))%Z -> In col (end_dates part) ->
+  (forall e, rcell b (Some e, Some c) r
+             == lsum (fun dp => if in_span (span part) (fst dp) && in_col (periods part) e (fst dp) then f dp else 0) L) ->
+  cum_cell b c part col r == lsum (fun dp => if in_window (p_start (span part)) col (fst dp) then f dp else 0) L.
+Proof.
+  intros Epart Hspan Hcol Hcells.
+  destruct (partition_facts _ _ _ _ Epart) as [_ Htiles]. destruct (Htiles Hspan) as [Ht Hfs].
+  pose proof (tiles_ends_sorted _ _ _ Ht) as Hsorted.
+  destruct (tiles_end_ge _ _ _ Ht) as [Hends _].
+  pose proof (tiles_last_end _ _ _ Ht) as HE.
+  unfold cum_cell, end_dates.
+  transitivity (lsum (fun e => lsum (fun dp => (if in_span (span part) (fst dp) then f dp else 0)
+                                               * (if (e <=? col)%Z && in_col (periods part) e (fst dp) then 1 else 0)) L)
+                     (map p_end (periods part))).
+  { apply LedgerProofs.qsum_ext. intros e _. destruct (e <=? col)%Z eqn:E.
+    - rewrite (Hcells e). apply LedgerProofs.qsum_ext. intros dp _.
+      destruct (in_span (span part) (fst dp)), (in_col (periods part) e (fst dp)); cbn [andb]; ring.
+    - symmetry. apply LedgerProofs.qsum_zero. intros dp _. cbn [andb]. ring. }
+  rewrite qsum_swap. apply LedgerProofs.qsum_ext. intros [d p] _. cbn [fst].
+  rewrite qsum_scale.
+  unfold in_span, in_window. destruct (p_start (span part) <=? d)%Z eqn:E1; cbn [andb]; [|ring].
+  assert (Hcole : (col <= p_end (span part))%Z).
+  { rewrite Forall_forall in Hends. apply in_map_iff in Hcol. destruct Hcol as (q & <- & Hq). exact (Hends _ Hq). }
+  destruct (d <=? p_end (span part))%Z eqn:E2.
+  - rewrite (cum_indicator (periods part) col d (p_end (span part)) Hsorted Hcol Hends HE) by lia.
+    destruct (d <=? col)%Z; ring.
+  - replace (d <=? col)%Z with false by lia. ring.
+Qed.
+
+(* ------------------------------------------------------------ Part E: one account on the directives; the sum *)
+
+Lemma window_journal cfg ds dl part V dsP dsV a c col :
+  parse_directives ds = MOk dl -> postings_syntactic dl -> valued_run cfg V dl part dsP dsV ->
+  account_ok a = true -> is_AL a = true -> c <> V -> (p_start (span part) - 1 <= col)%Z ->
+  Qabs (lsum (fun dp => if in_window (p_start (span part)) col (fst dp) then cval a c dp else 0) (dposts dsV)
+        - (mv_cell dl V a c col - mv_cell dl V a c (p_start (span part) - 1)))
+    <= inject_Z (cell_steps_tight dl a c (p_start (span part)) col) * (1 # 100000000).
+Proof.
+  intros Ep Hsyn (sP & sV & EP & EV) Ha HAL Hcv Hle.
+  pose proof (window_stage_tight V a c (built_days (bc_close cfg) dl part) (p_start (span part)) col sP dsP sV dsV Ha HAL Hcv
+           (built_days_sorted _ _ _) (built_days_dated _ _ _) (built_days_in_ok' _ ds dl part Ep Hsyn) Hle EP EV) as Hw.
+  eapply Qle_trans.
+  2: { apply Qmult_le_compat_r; [rewrite <- Zle_Qle; exact (day_steps_tight_journal cfg dl part a c col Hle)|discriminate]. }
+  eapply Qle_trans; [|exact Hw]. apply Qle_lteq. right. apply Qabs_wd.
+  unfold mv_cell. rewrite <- !(qty_on_days_journal (bc_close cfg) dl part).
+  rewrite <- !(price_on_days_journal (bc_close cfg) dl part V c _ Hcv). reflexivity.
+Qed.
+
+Lemma window_journal_V cfg ds dl part V dsP dsV a col :
+  parse_directives ds = MOk dl -> postings_syntactic dl -> valued_run cfg V dl part dsP dsV ->
+  (p_start (span part) - 1 <= col)%Z ->
+  lsum (fun dp => if in_window (p_start (span part)) col (fst dp) then cval a V dp else 0) (dposts dsV)
+  == mv_cell dl V a V col - mv_cell dl V a V (p_start (span part) - 1).
+Proof.
+  intros Ep Hsyn (sP & sV & EP & EV) Hle.
+  rewrite (window_minus _ _ _ _ Hle).
+  rewrite !(prefix_V V a _ _ sP dsP sV dsV (built_days_sorted _ _ _) (built_days_dated _ _ _)
+              (built_days_in_ok' _ ds dl part Ep Hsyn) EP EV).
+  rewrite !qty_on_days_journal. unfold mv_cell, ValuationSpec.price_on. rewrite str_eqb_refl. cbn [price_q].
+  assert (E1 : dvalue one == 1) by reflexivity. rewrite E1. ring.
+Qed.
+
+(* one account, the commodities of a list *)
+Lemma window_journal_row cfg ds dl part V dsP dsV a col :
+  parse_directives ds = MOk dl -> postings_syntactic dl -> valued_run cfg V dl part dsP dsV ->
+  account_ok a = true -> is_AL a = true -> (p_start (span part) - 1 <= col)%Z ->
+  forall coms,
+  Qabs (lsum (fun c => lsum (fun dp => if in_window (p_start (span part)) col (fst dp) then cval a c dp else 0) (dposts dsV)) coms
+        - (mv_row dl V a col coms - mv_row dl V a (p_start (span part) - 1) coms))
+    <= inject_Z (row_steps_tight dl V a (p_start (span part)) col coms) * (1 # 100000000).
+Proof.
+  intros Ep Hsyn Hrun Ha HAL Hle. unfold mv_row. induction coms as [|c coms IH].
+  - apply bound_zero. unfold LedgerProofs.qsum. cbn [fold_right]. ring.
+  - cbn [row_steps_tight].
+    eapply (bound_add (1 # 100000000)
+              (lsum (fun dp => if in_window (p_start (span part)) col (fst dp) then cval a c dp else 0) (dposts dsV)
+               - (mv_cell dl V a c col - mv_cell dl V a c (p_start (span part) - 1)))).
+    + destruct (str_eqb c V) eqn:Ec.
+      * apply str_eqb_eq in Ec. subst c. apply bound_zero.
+        rewrite (window_journal_V cfg ds dl part V dsP dsV a col Ep Hsyn Hrun Hle). ring.
+      * assert (Hcv : c <> V) by (intros ->; rewrite str_eqb_refl in Ec; discriminate).
+        exact (window_journal cfg ds dl part V dsP dsV a c col Ep Hsyn Hrun Ha HAL Hcv Hle).
+    + exact IH.
+    + unfold LedgerProofs.qsum. cbn [fold_right]. ring.
+Qed.
+
+(* -- a posting that lands on b belongs to exactly one of the aggregated accounts -- *)
+Lemma sum_pick_in (x : account) (v : Q) : forall l, NoDup l -> (forall y, In y l -> account_ok y = true) -> account_ok x = true ->
+  In x l -> lsum (fun y => if acc_eqb x y then v else 0) l == v.
+Proof.
+  induction l as [|y l IH]; intros Hnd Hok Hx Hin; [destruct Hin|].
+  inversion Hnd as [|? ? Hnin Hnd']; subst. unfold LedgerProofs.qsum. cbn [fold_right].
+  fold (lsum (fun y0 => if acc_eqb x y0 then v else 0) l).
+  destruct Hin as [->|Hin].
+  - rewrite acc_eqb_refl. rewrite LedgerProofs.qsum_zero; [ring|].
+    intros z Hz. destruct (acc_eqb x z) eqn:E; [|reflexivity]. exfalso.
+    apply acc_eqb_name in E. apply acc_name_inj in E; [|exact Hx|apply Hok; right; exact Hz]. subst z. contradiction.
+  - rewrite (IH Hnd' (fun z Hz => Hok z (or_intror Hz)) Hx Hin).
+    destruct (acc_eqb x y) eqn:E; [|ring]. exfalso.
+    apply acc_eqb_name in E. apply acc_name_inj in E; [|exact Hx|apply Hok; left; reflexivity]. subst y. contradiction.
+Qed.
+
+Definition in_journal (dl : list directive) (a : account) : Prop := exists d p, In (d, p) (flat_postings dl) /\ p_acc p = a.
+
+Lemma cfg_where_split cfg a c : cfg_where cfg a c = acc_pass cfg a && com_pass cfg c.
+Proof. reflexivity. Qed.
+
+Lemma mval_sources cfg dl b c srcs dp :
+  account_ok b = true -> is_AL b = true -> row_sources cfg dl b srcs -> com_pass cfg c = true ->
+  account_ok (p_acc (snd dp)) = true -> acc_from (in_journal dl) (snd dp) ->
+  mval cfg b c dp == lsum (fun a => cval a c dp) srcs.
+Proof.
+  intros Hb HAL (Hnd & Hsrc & Hcov) Hc Hp Hfrom. destruct dp as [d p]. cbn [snd] in *.
+  unfold mval, cval, cellb. cbn [snd]. rewrite cfg_where_split.
+  destruct (str_eqb (p_com p) c) eqn:Ec.
+  2: { rewrite andb_false_r. symmetry. apply LedgerProofs.qsum_zero. intros a _. rewrite andb_false_r. reflexivity. }
+  apply str_eqb_eq in Ec. rewrite Ec, Hc, !andb_true_r.
+  rewrite (LedgerProofs.qsum_ext _ (fun a => if acc_eqb (p_acc p) a then dvalue (p_val p) else 0) srcs)
+    by (intros a _; rewrite andb_true_r; reflexivity).
+  destruct (lands_on cfg b (p_acc p) && acc_pass cfg (p_acc p)) eqn:E.
+  - apply andb_true_iff in E. destruct E as [El Ea].
+    assert (HALp : is_AL (p_acc p) = true) by (rewrite (lands_class cfg b (p_acc p) Hp Hb El); exact HAL).
+    destruct Hfrom as [(d0 & p0 & Hin0 & Eacc)|Hn]; [|congruence].
+    assert (Hins : In (p_acc p) srcs) by (rewrite <- Eacc; apply (Hcov d0 p0 Hin0); rewrite Eacc; assumption).
+    symmetry. apply sum_pick_in; [exact Hnd|intros y Hy; exact (proj1 (Hsrc y Hy))|exact Hp|exact Hins].
+  - symmetry. apply LedgerProofs.qsum_zero. intros a Hin. destruct (acc_eqb (p_acc p) a) eqn:Ee; [|reflexivity]. exfalso.
+    destruct (Hsrc a Hin) as (Hoka & Hla & Hpa).
+    apply acc_eqb_name in Ee. apply acc_name_inj in Ee; [|assumption|assumption]. subst a.
+    rewrite Hla, Hpa in E. discriminate.
+Qed.
+
+Lemma sources_AL cfg dl b srcs a :
+  account_ok b = true -> is_AL b = true -> row_sources cfg dl b srcs -> In a srcs -> account_ok a = true /\ is_AL a = true.
+Proof.
+  intros Hb HAL (_ & Hsrc & _) Hin. destruct (Hsrc a Hin) as (Hok & Hl & _). split; [exact Hok|].
+  rewrite (lands_class cfg b a Hok Hb Hl). exact HAL.
+Qed.
+
+(* THE WINDOW for a row that aggregates accounts (--mapping, --remap): the row is the sum of the
+   mark-to-market changes of the accounts that land on it, up to the sum of their step counts *)
+Theorem windowed_row_mapped cfg ds r part V :
+  bc_valuation cfg = Some V ->
+  balance_report cfg ds = COk (r, part) ->
+  exists dl,
+    parse_directives ds = MOk dl /\
+    new_partition (clip (mkPeriod (bc_from cfg) (bc_to cfg)) (journal_period dl)) (bc_interval cfg) (bc_last cfg) = POk part /\
+    (postings_syntactic dl ->
+     forall b srcs col coms, account_ok b = true -> is_AL b = true -> row_sources cfg dl b srcs ->
+       (forall c, In c coms -> com_pass cfg c = true) ->
+       (p_start (span part) <= p_end (span part))%Z -> In col (end_dates part) ->
+       Qabs (row_value b part col r coms
+             - (mv_row_sum dl V srcs col coms - mv_row_sum dl V srcs (p_start (span part) - 1) coms))
+         <= inject_Z (steps_sum dl V srcs (p_start (span part)) col coms) * (1 # 100000000)).
+Proof.
+  intros Hv H. destruct (mapped_report_cells cfg ds r part V Hv H) as (dl & dsP & dsV & Ep & Epart & Hrun & Hcells).
+  exists dl. split; [exact Ep|]. split; [exact Epart|].
+  intros Hsyn b srcs col coms Hb HAL Hsrcs Hcoms Hspan Hcol.
+  destruct (Hcells Hsyn) as (HokV & HfromV & Hcell).
+  assert (Hle : (p_start (span part) - 1 <= col)%Z).
+  { destruct (partition_facts _ _ _ _ Epart) as [_ Htiles]. destruct (Htiles Hspan) as [Ht Hfs].
+    destruct (tiles_facts _ _ _ Ht) as [_ Hb0]. rewrite Forall_forall in Hb0.
+    apply in_map_iff in Hcol. destruct Hcol as (q & <- & Hq). specialize (Hb0 _ Hq). lia. }
+  set (W := p_start (span part)) in *.
+  set (F := fun a c => lsum (fun dp => if in_window W col (fst dp) then cval a c dp else 0) (dposts dsV)).
+  (* the row as a double sum over the aggregated accounts *)
+  assert (Hrow : row_value b part col r coms == lsum (fun a => lsum (fun c => F a c) coms) srcs).
+  { unfold row_value. rewrite qsum_swap. apply LedgerProofs.qsum_ext. intros c Hc.
+    rewrite (cum_window_generic (mval cfg b c) b c part col r (dposts dsV) _ _ _ Epart Hspan Hcol (fun e => Hcell b c e Hb HAL)).
+    unfold F. rewrite qsum_swap. apply LedgerProofs.qsum_ext. intros dp Hdp. fold W.
+    destruct (in_window W col (fst dp)).
+    - apply (mval_sources cfg dl b c srcs dp Hb HAL Hsrcs (Hcoms c Hc)).
+      + rewrite Forall_forall in HokV. apply HokV. rewrite <- snd_dposts. apply in_map. exact Hdp.
+      + rewrite Forall_forall in HfromV. apply HfromV. rewrite <- snd_dposts. apply in_map. exact Hdp.
+    - symmetry. apply LedgerProofs.qsum_zero. intros a _. reflexivity. }
+  rewrite Hrow. unfold mv_row_sum.
+  assert (Hall : forall a, In a srcs -> account_ok a = true /\ is_AL a = true)
+    by (intros a Ha; exact (sources_AL cfg dl b srcs a Hb HAL Hsrcs Ha)).
+  clear Hrow Hsrcs. induction srcs as [|a srcs IH].
+  - apply bound_zero. unfold LedgerProofs.qsum. cbn [fold_right]. ring.
+  - cbn [steps_sum]. destruct (Hall a (or_introl eq_refl)) as [Hoka HALa].
+    eapply (bound_add (1 # 100000000)
+              (lsum (fun c => F a c) coms - (mv_row dl V a col coms - mv_row dl V a (W - 1) coms))).
+    + exact (window_journal_row cfg ds dl part V dsP dsV a col Ep Hsyn Hrun Hoka HALa Hle coms).
+    + exact (IH (fun a' Ha' => Hall a' (or_intror Ha'))).
+    + unfold LedgerProofs.qsum. cbn [fold_right]. ring.
+Qed.
